@@ -11,9 +11,12 @@ import z3
 from pyvc.ty import *  # noqa
 from pyvc.engine import PyRaise, Unsupported
 
-CODE_ATTRS = ["co_argcount", "co_code", "co_cellvars", "co_consts", "co_flags", "co_freevars", "co_kwonlyargcount", "co_name", "co_names", "co_nlocals", "co_stacksize", "co_varnames"]
+CODE_ATTRS = ["co_exceptiontable", "co_posonlyargcount", "co_argcount", "co_code", "co_cellvars", "co_consts", "co_flags", "co_freevars", "co_kwonlyargcount", "co_name", "co_names", "co_nlocals", "co_stacksize", "co_varnames"]
 # the behavioural attributes named by property C01
-BEH_CODE = ["co_code", "co_consts", "co_names", "co_varnames", "co_freevars", "co_cellvars", "co_argcount", "co_kwonlyargcount", "co_flags"]
+BEH_CODE = ["co_code", "co_consts", "co_names", "co_varnames", "co_freevars", "co_cellvars", "co_argcount", "co_kwonlyargcount", "co_flags",
+            # not in the list fn_code_hash hashes, but behavioural ("edits to function bodies"): the exception table decides which handler an instruction
+            # jumps to (try/except vs try/except/else can share one co_code), co_posonlyargcount decides how arguments bind
+            "co_exceptiontable", "co_posonlyargcount"]
 BEH_FN = ["__defaults__", "__kwdefaults__"]
 
 
@@ -90,9 +93,9 @@ def load(R):
         if a == "co_consts":
             # constants, recursively: the tuple of what each constant hashes / renders to (nested code objects through this same function)
             # (the witness is named through the local list: the 4th entry; a reordering of the list makes this clause undecidable, not wrong)
-            ens.append("implies(isinstance(o, CodeType), VIEWED(attr_values[3]) and CONSTS_VIEW(attr_values[3], o.co_consts))")
+            ens.append("[C01] implies(isinstance(o, CodeType), VIEWED(attr_values[3]) and CONSTS_VIEW(attr_values[3], o.co_consts))")
         else:
-            ens.append("implies(isinstance(o, CodeType), VIEWED(%s))" % views.get(a, "o." + a))
+            ens.append("[C01] implies(isinstance(o, CodeType), VIEWED(%s))" % views.get(a, "o." + a))
     R.contract(NESTED, prop="C01", types={"o": TObj()}, returns=TStr, ghost_params=GH,
                requires=["implies(isinstance(o, CodeType), o.co_consts is not None)"],
                ensures=ens + [
